@@ -525,3 +525,11 @@ PROPS['C10']['obligations'] += [
     O('C10.algo_delta_sql', 'harness.c10_algo_md', 'algo_delta_sql', 300, 900, 'same on the SQL datastore',
       '2 rounds, 2+1 writes over {study, trial 1, trial 2} x 4 namespaces x 3 keys', no_validate=True),
 ]
+
+
+PROPS['C02']['encoded'] += ['vizier_client.VizierClient.get_suggestions', 'PollingDelay']
+PROPS['C02']['obligations'].append(
+    O('C02.client_get_suggestions', 'harness.c02_client', 'get_suggestions', 120, 300,
+      'client side: polls the operation until done (0..3 polls), returns exactly its trials, FAILED_PRECONDITION -> [], '
+      'other RpcError raised, operation error -> RuntimeError', 'scripted service stub', no_validate=True))
+PROPS['C02']['outside'] = 'more than 3 own / 3 requested trials; SQL datastore (C07)'
